@@ -276,6 +276,20 @@ def check(case: t.Any, ctx: Ctx) -> None:
             if what == 'deepcopy' and cp.d is src.d:
                 ctx.fail('copy', 'deepcopy-shares', f"{ident}; deepcopy shares the list field with the original")
                 return
+    if default_point:
+        # a field pane leaves to the class (init=False, no default) and which nothing has filled in yet: the instance is a value
+        # like any other - its copies are equal instances (lacking the same attribute), as its replace() already is
+        if 'late' not in _CACHE:
+            _CACHE['late'] = type('LateCls', (pane.PaneBase,), {'__annotations__': {'a': int, 'late': int}, 'late': pane.field(init=False)})
+        L = _CACHE['late']
+        z = L(a=insts[0][0])
+        for (what, f) in (('copy', copy.copy), ('deepcopy', copy.deepcopy), ('__replace__()', lambda o: o.__replace__())):
+            ctx.evaluated()
+            (k, cp) = outcome(lambda: f(z))
+            if k != 'ok' or type(cp) is not L or cp.a != z.a or hasattr(cp, 'late') or set(cp.__pane_set__) != {'a'}:
+                ctx.fail('copy', f"{what}:unset-init-false-field", f"class LateCls(a: int, late: int = field(init=False)); {what} of LateCls(a={z.a}) "
+                         f"{'raised ' + type(cp).__name__ + ': ' + str(cp)[:100] if k != 'ok' else 'gave ' + short(getattr(cp, '__dict__', cp), 100)}")
+                return
     (k, rp) = outcome(lambda: y.__replace__(a=9))
     ctx.evaluated()
     if k != 'ok' or rp.a != 9 or rp.b != y.b or set(rp.__pane_set__) != set(y.__pane_set__) | {'a'}:
